@@ -808,6 +808,9 @@ private:
     }
   }
 
+public:
+  /// \brief Remove chunked transfer-coding framing (RFC 9112 §7.1) from a complete
+  /// message body. Also used by HttpServer for chunked request bodies.
   static std::string parseChunkedBody(const std::string &chunkedData)
   {
     std::string result;
